@@ -12,6 +12,7 @@ wall time.  With no active context every seam is a pass-through to the real thin
 """
 import errno
 import io
+import os
 import pathlib
 
 from . import env  # noqa: F401  (imports rv)
@@ -281,6 +282,10 @@ DISK = SimDisk()
 
 _real_path_open = pathlib.Path.open
 _real_bytesio = io.BytesIO
+import builtins as _builtins
+
+_real_open = _builtins.open
+_real_io_open = io.open
 
 
 def _sim_path_open(self, mode="r", *a, **kw):
@@ -298,6 +303,17 @@ def _sim_path_open(self, mode="r", *a, **kw):
     if name not in DISK.files:
         raise FileNotFoundError(errno.ENOENT, "no such simulated file", s)
     return ctx.new_stream(DISK.files[name], "path")
+
+
+def _sim_builtin_open(file, mode="r", *a, **kw):
+    """builtins.open / io.open for names on the SimDisk (an implementation may open the path
+    itself instead of going through pathlib)."""
+    ctx = CURRENT
+    if ctx is not None and isinstance(file, (str, os.PathLike)):
+        s = os.fspath(file)
+        if isinstance(s, str) and s.startswith(SIM_ROOT):
+            return _sim_path_open(pathlib.PurePosixPath(s), mode)
+    return _real_open(file, mode, *a, **kw)
 
 
 def _sim_bytesio(*a, **kw):
@@ -328,6 +344,8 @@ class _IoShim:
 def install():
     """Idempotent; pass-through unless a Ctx is active."""
     pathlib.Path.open = _sim_path_open
+    _builtins.open = _sim_builtin_open
+    io.open = _sim_builtin_open
     _mm.BytesIO = _sim_bytesio
     _sm.BytesIO = _sim_bytesio
     import rv.container as _ct
@@ -339,6 +357,8 @@ def install():
 
 def uninstall():
     pathlib.Path.open = _real_path_open
+    _builtins.open = _real_open
+    io.open = _real_io_open
     _mm.BytesIO = _real_bytesio
     _sm.BytesIO = _real_bytesio
     import rv.container as _ct
@@ -370,7 +390,7 @@ class active:
 STUBS = [
     "SimDisk",
     "SimFile (file_or_name / write_to argument)",
-    "pathlib.Path.open (names under /simdisk/)",
+    "pathlib.Path.open, builtins.open, io.open (names under /simdisk/)",
     "BytesIO@rv.modules.metamodule",
     "BytesIO@rv.modules.sampler",
     "BytesIO@rv.container and io.BytesIO@rv.modules.module (scratch buffer of clone(), only when a Ctx asks for it)",
